@@ -21,7 +21,7 @@ import (
 // rpcSpec describes one RPC of a history.
 type rpcSpec struct {
 	Kind    string // "U" unary | "S" streaming
-	End     string // U: "ok" | "cancel" ; S: "close" | "cancel" | "drain"
+	End     string // U: "ok" | "cancel" ; S: "close" | "cancel" | "drain" | "closecancel" (ends by itself just as its context is cancelled)
 	Handler string // "echo" | "send2" | "err" | "early" | "recv2"
 }
 
@@ -183,6 +183,9 @@ func runRPC(env *wl.Env, i int, sp rpcSpec) {
 	switch sp.End {
 	case "close":
 		_ = stream.Close()
+	case "closecancel":
+		_ = stream.Close()
+		wl.Cancel(cancel)
 	case "drain":
 		_ = stream.CloseSend()
 		for k := 0; k < 4; k++ {
@@ -300,6 +303,14 @@ func basePlans(tier string) []mc.Plan {
 		}
 	}
 	ps = append(ps, mc.Plan{Scen: slowMarshal(tiny), Bounds: []int{0, 1}})
+	// an RPC that ends by itself just as its context is cancelled must not make the connection deaf
+	// to the cancellation of a later RPC (whose stream the next call waits for)
+	for _, soft := range []bool{false, true} {
+		for _, second := range []rpcSpec{{"S", "cancel", "recv2"}, {"U", "cancel", "recv2"}} {
+			sc := history(wl.Config{Soft: soft, Pipe: tr.Options{Cap: -1}}, []rpcSpec{{"S", "closecancel", "echo"}, second, {"U", "ok", "echo"}})
+			ps = append(ps, mc.Plan{Scen: sc, Bounds: []int{0, 1}}, mc.Plan{Scen: sc.Reversed(), Bounds: []int{0, 1}})
+		}
+	}
 	for _, cfg := range cfgs {
 		for _, f := range firsts {
 			for _, v := range victims {
